@@ -1,11 +1,21 @@
 // Driver for C06 (spec/Realm.tla): replays TLC-generated transaction scripts into the REAL
-// gno.land application (universal realms gno.land/r/verif/heap and heap2 over the /p/ type
-// node.Node), and after every committed transaction reads the RAW committed base store
-// (`s/k:base/oid:` entries, 20-byte hash || amino) without going through the VM's load path.
+// gno.land application (universal realms gno.land/r/verif/heapN + heapxN over the /p/ type
+// node.Node; one MsgCall per spec transaction, each in its own committed block) and after
+// every committed transaction reads the RAW committed base store (`oid:` entries,
+// 20-byte hash || amino, decoded with amino.UnmarshalAny; references collected by a generic
+// walk of the amino-JSON) WITHOUT going through the VM's load path.
+//
+//   - user-level nodes (label V, fields A, B, W, RefCount, IsEscaped, OwnerID) are compared with
+//     the spec's predicted persisted graph (verdict observables);
+//   - the WHOLE persisted graph of the realm packages is written as one NDJSON line per
+//     committed transaction (-out) for spec/RealmDump.tla, where TLC evaluates the
+//     statement's invariants (spec/RealmInv.tla) on every dumped state.
 package main
 
 import (
 	"bytes"
+	"encoding/base64"
+	"encoding/binary"
 	"encoding/json"
 	"fmt"
 	"os"
@@ -23,11 +33,7 @@ import (
 	"verifharness/mbt"
 )
 
-const (
-	nodePath  = "gno.land/p/verif/node"
-	heapPath  = "gno.land/r/verif/heap"
-	heap2Path = "gno.land/r/verif/heap2"
-)
+const nodePath = "gno.land/p/verif/node"
 
 const nodeSrc = `package node
 
@@ -39,7 +45,9 @@ type Node struct {
 `
 
 // The same interpreter text is instantiated in both realms (package-level variables can only
-// be assigned by code of their own package).
+// be assigned by code of their own package). Registers: regs[i] holds the node whose label V
+// has V%16 == i; at the start of a transaction they are filled with everything reachable from
+// the roots of both realms, i.e. the program may hold a pointer to any reachable node.
 const interpSrc = `package PKG
 
 import (
@@ -54,13 +62,6 @@ var (
 	Root  *node.Node
 	Slots [2]*node.Node
 )
-
-func getRoot(k int) *node.Node {
-	if k == 0 {
-		return Root
-	}
-	return Slots[k-1]
-}
 
 func setRoot(k int, n *node.Node) {
 	if k == 0 {
@@ -103,7 +104,7 @@ func interp(cur realm, script string, regs []*node.Node) []*node.Node {
 		switch f[0] {
 		case "n": // n i label : regs[i] = new node
 			regs[atoi(f[1])] = &node.Node{V: atoi(f[2])}
-		case "r": // r k i : root k = regs[i] (0 = nil)
+		case "r": // r k i : root k = regs[i] (regs[0] is always nil)
 			setRoot(atoi(f[1]), regs[atoi(f[2])])
 		case "a":
 			regs[atoi(f[1])].A = regs[atoi(f[2])]
@@ -111,11 +112,6 @@ func interp(cur realm, script string, regs []*node.Node) []*node.Node {
 			regs[atoi(f[1])].B = regs[atoi(f[2])]
 		case "t": // t i w : regs[i].W = w
 			regs[atoi(f[1])].W = atoi(f[2])
-		case "z":
-			Root = nil
-			Slots[0] = nil
-			Slots[1] = nil
-			RESET2
 		case "x": // x <ops separated by ','> : run in the other realm's frame
 			regs = other(cur, strings.ReplaceAll(strings.Join(f[1:], " "), ",", ";"), regs)
 		default:
@@ -136,12 +132,22 @@ func Apply(cur realm, script string) string {
 	interp(cur, script, regs)
 	return "ok"
 }
+
+// Reset drops every root without loading anything else.
+func Reset(cur realm) {
+	Root = nil
+	Slots[0] = nil
+	Slots[1] = nil
+	RESET2
+}
 `
 
-func heapSrc() string {
-	s := strings.ReplaceAll(interpSrc, "PKG", "heap")
-	s = strings.ReplaceAll(s, "IMPORTS", "\t\"gno.land/r/verif/heap2\"")
-	s = strings.ReplaceAll(s, "RESET2", "heap2.Exec(cross(cur), \"z\", nil)")
+func lastElem(path string) string { return path[strings.LastIndex(path, "/")+1:] }
+
+func heapSrc(heapPath, heap2Path string) string {
+	s := strings.ReplaceAll(interpSrc, "PKG", lastElem(heapPath))
+	s = strings.ReplaceAll(s, "IMPORTS", "\theap2 \""+heap2Path+"\"")
+	s = strings.ReplaceAll(s, "RESET2", "heap2.Reset(cross(cur))")
 	s = strings.ReplaceAll(s, "OTHER", `func other(cur realm, script string, regs []*node.Node) []*node.Node {
 	out := heap2.Exec(cross(cur), script, regs)
 	mine := make([]*node.Node, 16)
@@ -154,8 +160,8 @@ func heapSrc() string {
 	return s
 }
 
-func heap2Src() string {
-	s := strings.ReplaceAll(interpSrc, "PKG", "heap2")
+func heap2Src(heap2Path string) string {
+	s := strings.ReplaceAll(interpSrc, "PKG", lastElem(heap2Path))
 	s = strings.ReplaceAll(s, "IMPORTS", "")
 	s = strings.ReplaceAll(s, "RESET2", "")
 	s = strings.ReplaceAll(s, "OTHER", `func other(cur realm, script string, regs []*node.Node) []*node.Node {
@@ -175,29 +181,32 @@ func Exec(cur realm, script string, in []*node.Node) []*node.Node {
 
 type PObj struct {
 	ID     string   `json:"id"`
-	Pkg    string   `json:"pkg"`   // hex pkgid
-	Kind   string   `json:"kind"`  // amino type name
+	Kind   string   `json:"kind"`
+	IsPkg  bool     `json:"ispkg"`
 	RC     int      `json:"rc"`
 	Owner  string   `json:"owner"` // "" = none
 	Esc    bool     `json:"esc"`
-	HashOK bool     `json:"hashok"`
-	KeyOK  bool     `json:"keyok"` // key == "oid:" + ObjectInfo.ID
-	Size   int      `json:"size"`
-	Refs   []string `json:"refs"`    // ObjectIDs of every RefValue outside ObjectInfo
-	PkgRef []string `json:"pkgrefs"` // RefValue{PkgPath}
-	raw    any
+	HashOK bool     `json:"hashok"` // stored hash == hash of stored bytes, and key == oid:<ObjectInfo.ID>
+	Refs   []string `json:"refs"`   // ObjectID of every RefValue outside ObjectInfo (with multiplicity)
+	size   int
+	raw    map[string]any
+	hashes map[string]string // target id -> hash embedded in the RefValue (non-escaped children)
+	stored string            // hex of the stored hash
 }
 
-const basePrefix = "s/_/" // gnoland mounts both stores with an explicit DB: rootmulti prefix "s/_/"
+// gnoland mounts both sub-stores with an explicit DB handle: rootmulti then uses the key prefix
+// "s/_/" for both (the base store's keys start with oid: / pkg: / tid: / node: ...).
+const basePrefix = "s/_/"
 
-func collectRefs(g any, refs, pkgrefs *[]string) {
+func collectRefs(g any, refs *[]string, hashes map[string]string) {
 	switch x := g.(type) {
 	case map[string]any:
 		if t, _ := x["@type"].(string); t == "/gno.RefValue" {
 			if id, _ := x["ObjectID"].(string); id != "" && !strings.HasSuffix(id, ":0") {
 				*refs = append(*refs, id)
-			} else if p, _ := x["PkgPath"].(string); p != "" {
-				*pkgrefs = append(*pkgrefs, p)
+				if h, _ := x["Hash"].(string); h != "" {
+					hashes[id] = h
+				}
 			}
 			return
 		}
@@ -210,11 +219,11 @@ func collectRefs(g any, refs, pkgrefs *[]string) {
 			if k == "ObjectInfo" {
 				continue
 			}
-			collectRefs(x[k], refs, pkgrefs)
+			collectRefs(x[k], refs, hashes)
 		}
 	case []any:
 		for _, y := range x {
-			collectRefs(y, refs, pkgrefs)
+			collectRefs(y, refs, hashes)
 		}
 	}
 }
@@ -233,7 +242,7 @@ func scan(db dbm.DB, oidPrefix string) ([]*PObj, error) {
 	for ; it.Valid(); it.Next() {
 		k := string(it.Key())[len(basePrefix):]
 		if strings.HasSuffix(k, "#realm") {
-			continue
+			continue // per-realm counters, not objects
 		}
 		v := it.Value()
 		if len(v) < gno.HashSize {
@@ -246,28 +255,24 @@ func scan(db dbm.DB, oidPrefix string) ([]*PObj, error) {
 			return nil, fmt.Errorf("decode %s: %v", k, err)
 		}
 		oi := obj.GetObjectInfo()
-		var g any
 		js, err := amino.MarshalJSONAny(obj)
 		if err != nil {
 			return nil, err
 		}
+		var g map[string]any
 		if err := json.Unmarshal(js, &g); err != nil {
 			return nil, err
 		}
-		p := &PObj{ID: oi.ID.String(), Pkg: k[4 : 4+40], RC: oi.RefCount, Esc: oi.IsEscaped, HashOK: bytes.Equal(h.Bytes(), hash),
-			KeyOK: k == "oid:"+oi.ID.String(), Size: len(v), raw: g}
+		p := &PObj{ID: oi.ID.String(), RC: oi.RefCount, Esc: oi.IsEscaped,
+			HashOK: bytes.Equal(h.Bytes(), hash) && k == "oid:"+oi.ID.String(), size: len(v), raw: g,
+			hashes: map[string]string{}, stored: fmt.Sprintf("%x", hash)}
 		if !oi.OwnerID.IsZero() {
 			p.Owner = oi.OwnerID.String()
 		}
-		if m, ok := g.(map[string]any); ok {
-			p.Kind, _ = m["@type"].(string)
-			if vv, ok := m["value"]; ok { // registered-any wrapper
-				g = vv
-			}
-		}
+		p.Kind, _ = g["@type"].(string)
+		p.IsPkg = p.Kind == "/gno.PackageValue"
 		p.Refs = []string{}
-		p.PkgRef = []string{}
-		collectRefs(g, &p.Refs, &p.PkgRef)
+		collectRefs(g, &p.Refs, p.hashes)
 		out = append(out, p)
 	}
 	return out, nil
@@ -278,26 +283,29 @@ func has(db dbm.DB, oid string) bool {
 	return err == nil && v != nil
 }
 
-// ---------------------------------------------------------------- app
+func pkgHex(path string) string {
+	id := gno.PkgIDFromPkgPath(path)
+	return fmt.Sprintf("%x", id.Bytes())
+}
+
+// ---------------------------------------------------------------- app + realm instances
 
 type world struct {
-	e    *appenv.Env
-	user *appenv.Account
-	seq  uint64
-	num  uint64
+	e     *appenv.Env
+	user  *appenv.Account
+	seq   uint64
+	num   uint64
+	ninst int
+	txs   int
 }
 
 func newWorld() *world {
 	u, d := appenv.NewAccount("u"), appenv.NewAccount("deployer")
 	e, err := appenv.New(appenv.Options{
 		MaxGas:   3_000_000_000,
-		Balances: map[crypto.Address]int64{u.Addr: 1_000_000_000_000, d.Addr: 1_000_000_000_000},
+		Balances: map[crypto.Address]int64{u.Addr: 4_000_000_000_000_000, d.Addr: 1_000_000_000_000},
 		Deployer: d,
-		Pkgs: []appenv.Pkg{
-			{Path: nodePath, Files: map[string]string{"node.gno": nodeSrc}},
-			{Path: heap2Path, Files: map[string]string{"heap2.gno": heap2Src()}},
-			{Path: heapPath, Files: map[string]string{"heap.gno": heapSrc()}},
-		},
+		Pkgs:     []appenv.Pkg{{Path: nodePath, Files: map[string]string{"node.gno": nodeSrc}}},
 	})
 	if err != nil {
 		mbt.Die("app: %v", err)
@@ -308,91 +316,527 @@ func newWorld() *world {
 	return w
 }
 
-// call runs one MsgCall in its own block and commits. Returns ok and the log.
-func (w *world) call(path, fn string, args ...string) (bool, string) {
-	msg := vm.NewMsgCall(w.user.Addr, nil, path, fn, args)
-	tx := appenv.SignTx([]std.Msg{msg}, 200_000_000, 1_000_000, appenv.ChainID, w.user, w.num, w.seq)
+func (w *world) deliver(msg std.Msg, gas int64) (bool, string) {
+	tx := appenv.SignTx([]std.Msg{msg}, gas, 1_000_000, appenv.ChainID, w.user, w.num, w.seq)
 	w.e.BeginBlock()
 	r := w.e.Deliver(tx)
 	w.e.EndBlockCommit()
+	w.txs++
 	if r.GasWanted > 0 {
 		w.seq++
 	}
 	return r.IsOK(), r.Log
 }
 
+func (w *world) call(path, fn string, args ...string) (bool, string) {
+	return w.deliver(vm.NewMsgCall(w.user.Addr, nil, path, fn, args), 300_000_000)
+}
+
+type instance struct {
+	heap, heap2 string
+	hx, h2x     string
+	holder      map[int]string // 101 Root holder of heap, 102 Slots array of heap, 201 / 202 same for heap2
+	holderOf    map[string]int
+}
+
+func (w *world) newInstance() *instance {
+	w.ninst++
+	in := &instance{heap: fmt.Sprintf("gno.land/r/verif/heap%d", w.ninst), heap2: fmt.Sprintf("gno.land/r/verif/heapx%d", w.ninst),
+		holder: map[int]string{}, holderOf: map[string]int{}}
+	in.hx, in.h2x = pkgHex(in.heap), pkgHex(in.heap2)
+	for _, p := range []appenv.Pkg{
+		{Path: in.heap2, Files: map[string]string{"heap2.gno": heap2Src(in.heap2)}},
+		{Path: in.heap, Files: map[string]string{"heap.gno": heapSrc(in.heap, in.heap2)}},
+	} {
+		ok, log := w.deliver(appenv.AddPkgMsg(w.user.Addr, p), 500_000_000)
+		if !ok {
+			mbt.Die("deploy %s: %.800s", p.Path, log)
+		}
+	}
+	// locate the holders of the package variables: package block -> HeapItemValue children;
+	// the one wrapping an ArrayValue is `Slots`, the other one is `Root`.
+	for base, px := range map[int]string{100: in.hx, 200: in.h2x} {
+		objs, err := scan(w.e.DB, px)
+		if err != nil {
+			mbt.Die("scan: %v", err)
+		}
+		by := map[string]*PObj{}
+		for _, o := range objs {
+			by[o.ID] = o
+		}
+		blk := by[px+":2"]
+		if blk == nil || blk.Kind != "/gno.Block" {
+			mbt.Die("no package block for %s", px)
+		}
+		for _, r := range blk.Refs {
+			c := by[r]
+			if c == nil || c.Kind != "/gno.HeapItemValue" {
+				continue
+			}
+			if len(c.Refs) == 1 && by[c.Refs[0]] != nil && by[c.Refs[0]].Kind == "/gno.ArrayValue" {
+				in.holder[base+2] = c.Refs[0]
+			} else if len(c.Refs) == 0 {
+				in.holder[base+1] = c.ID
+			}
+		}
+		if in.holder[base+1] == "" || in.holder[base+2] == "" {
+			mbt.Die("cannot locate the root holders of %s", px)
+		}
+	}
+	for k, v := range in.holder {
+		in.holderOf[v] = k
+	}
+	return in
+}
+
+// ---------------------------------------------------------------- projection of the user-level graph
+
+type unode struct {
+	ID   int
+	A, B int
+	Val  int
+	RC   int
+	Own  int // node id, holder id (101..), 0 none, -1 something else
+	Esc  bool
+	Pkg  int
+	hiv  string // object id of the HeapItemValue
+	sv   string
+	// fact about the real graph used to name a mismatch class
+	ownerHolds bool
+}
+
+func fieldInt(f any) int {
+	m, _ := f.(map[string]any)
+	s, _ := m["N"].(string)
+	if s == "" {
+		return 0
+	}
+	bz, err := base64.StdEncoding.DecodeString(s)
+	if err != nil || len(bz) != 8 {
+		return -1
+	}
+	return int(int64(binary.LittleEndian.Uint64(bz)))
+}
+
+// pointer target (HeapItemValue id) of a TypedValue {T: *Node, V: PointerValue{Base: RefValue}}
+func ptrTarget(f any) string {
+	m, _ := f.(map[string]any)
+	v, _ := m["V"].(map[string]any)
+	if v == nil {
+		return ""
+	}
+	b, _ := v["Base"].(map[string]any)
+	if b == nil {
+		return ""
+	}
+	id, _ := b["ObjectID"].(string)
+	return id
+}
+
+type graph struct {
+	objs []*PObj
+	by   map[string]*PObj
+}
+
+func (w *world) scanInstance(in *instance) *graph {
+	g := &graph{by: map[string]*PObj{}}
+	for _, px := range []string{in.hx, in.h2x} {
+		objs, err := scan(w.e.DB, px)
+		if err != nil {
+			mbt.Die("scan: %v", err)
+		}
+		g.objs = append(g.objs, objs...)
+	}
+	for _, o := range g.objs {
+		g.by[o.ID] = o
+	}
+	return g
+}
+
+// project returns the user-level nodes whose label belongs to the behaviour `base` (label/16 == base).
+func project(g *graph, in *instance, base int) (map[int]*unode, map[int][2]int, []string) {
+	var notes []string
+	nodes := map[int]*unode{}
+	byHIV := map[string]int{}
+	svOf := map[string]int{}
+	for _, o := range g.objs {
+		if o.Kind != "/gno.HeapItemValue" {
+			continue
+		}
+		val, _ := o.raw["Value"].(map[string]any)
+		t, _ := val["T"].(map[string]any)
+		if t == nil || t["@type"] != "/gno.RefType" || t["ID"] != nodePath+".Node" {
+			continue
+		}
+		v, _ := val["V"].(map[string]any)
+		svid, _ := v["ObjectID"].(string)
+		sv := g.by[svid]
+		if sv == nil || sv.Kind != "/gno.StructValue" {
+			notes = append(notes, "holder-without-struct "+o.ID)
+			continue
+		}
+		fs, _ := sv.raw["Fields"].([]any)
+		if len(fs) != 4 {
+			continue
+		}
+		label := fieldInt(fs[2])
+		if label/16 != base {
+			continue
+		}
+		id := label % 16
+		if nodes[id] != nil {
+			notes = append(notes, fmt.Sprintf("duplicate-label %d", label))
+			continue
+		}
+		n := &unode{ID: id, Val: fieldInt(fs[3]), RC: o.RC, Esc: o.Esc, hiv: o.ID, sv: svid}
+		if strings.HasPrefix(o.ID, in.hx) {
+			n.Pkg = 1
+		} else {
+			n.Pkg = 2
+		}
+		nodes[id] = n
+		byHIV[o.ID] = id
+		svOf[svid] = id
+	}
+	tgt := func(id string) int {
+		if id == "" {
+			return 0
+		}
+		if n, ok := byHIV[id]; ok {
+			return n
+		}
+		return -1
+	}
+	for _, n := range nodes {
+		fs, _ := g.by[n.sv].raw["Fields"].([]any)
+		n.A, n.B = tgt(ptrTarget(fs[0])), tgt(ptrTarget(fs[1]))
+		o := g.by[n.hiv]
+		switch {
+		case o.Owner == "":
+			n.Own = 0
+		case svOf[o.Owner] != 0:
+			n.Own = svOf[o.Owner]
+		case in.holderOf[o.Owner] != 0:
+			n.Own = in.holderOf[o.Owner]
+		default:
+			n.Own = -1
+		}
+		if ow := g.by[o.Owner]; ow != nil {
+			for _, r := range ow.Refs {
+				if r == n.hiv {
+					n.ownerHolds = true
+				}
+			}
+		}
+	}
+	roots := map[int][2]int{}
+	for _, base := range []int{100, 200} {
+		if h := g.by[in.holder[base+1]]; h != nil {
+			val, _ := h.raw["Value"].(map[string]any)
+			roots[base+1] = [2]int{tgt(ptrTarget(val)), 0}
+		}
+		if a := g.by[in.holder[base+2]]; a != nil {
+			l, _ := a.raw["List"].([]any)
+			if len(l) == 2 {
+				roots[base+2] = [2]int{tgt(ptrTarget(l[0])), tgt(ptrTarget(l[1]))}
+			}
+		}
+	}
+	return nodes, roots, notes
+}
+
+// ---------------------------------------------------------------- replay
+
+func script(ops []any, base int) string {
+	var top []string
+	var inner []string
+	in := false
+	emit := func(s string) {
+		if in {
+			inner = append(inner, s)
+		} else {
+			top = append(top, s)
+		}
+	}
+	for _, x := range ops {
+		o := mbt.Step(x.(map[string]any))
+		p, k, c := o.Int("p"), o.Int("k"), o.Int("c")
+		switch o.Str("op") {
+		case "new":
+			emit(fmt.Sprintf("n %d %d", p, base*16+p))
+		case "set":
+			switch {
+			case p == 101 || p == 201:
+				emit(fmt.Sprintf("r 0 %d", c))
+			case p == 102 || p == 202:
+				emit(fmt.Sprintf("r %d %d", k, c))
+			case k == 1:
+				emit(fmt.Sprintf("a %d %d", p, c))
+			default:
+				emit(fmt.Sprintf("b %d %d", p, c))
+			}
+		case "touch":
+			emit(fmt.Sprintf("t %d %d", p, c))
+		case "enter":
+			in = true
+			inner = nil
+		case "leave":
+			in = false
+			top = append(top, "x "+strings.Join(inner, ","))
+		}
+	}
+	return strings.Join(top, ";")
+}
+
+type reporter struct {
+	seen   map[string]int
+	counts map[string]int
+}
+
+func (r *reporter) mismatch(key, what string, c any) {
+	r.counts["mm:"+key]++
+	if r.seen[key] == 0 {
+		mbt.Mismatch(key, what, c)
+	}
+	r.seen[key]++
+}
+
+func main() {
+	f := mbt.ParseFlags()
+	if f.Mode == "probe" {
+		probe()
+		mbt.Flush()
+		return
+	}
+	behs, err := mbt.ReadBehaviours(f.In)
+	if err != nil {
+		mbt.Die("read: %v", err)
+	}
+	dumpDir := f.Out // directory: one file realm_dump_<l>.json per committed transaction (spec/RealmDump.tla)
+	w := newWorld()
+	in := w.newInstance()
+	rep := &reporter{seen: map[string]int{}, counts: map[string]int{}}
+	sum := map[string]int{}
+	line := 0
+	samples := 0
+	for bi, beh := range behs {
+		base := bi + 1
+		caseOf := func(k int) map[string]any {
+			return map[string]any{"steps": beh, "failed_at": k + 1, "beh": bi}
+		}
+		// fresh user-level state: drop every root; a realm pair that cannot be reset any more
+		// (left inconsistent by an earlier behaviour) is replaced by a fresh pair
+		if ok, _ := w.call(in.heap, "Reset"); !ok {
+			in = w.newInstance()
+			sum["instances"]++
+		}
+		sum["replays"]++
+		good := true
+		for si, st := range beh {
+			ops, _ := st["ops"].([]any)
+			if st.Bool("loop") && f.Mode != "crash" {
+				// the transcribed save recursion meets an object that is already being saved: realm.go as
+				// pinned recurses until the Go stack is exhausted (fatal error, kills the process). Such a
+				// transaction is executed only in a dedicated process (mode crash).
+				mbt.Emit(map[string]any{"kind": "crashcase", "case": caseOf(si)})
+				sum["crashcases"]++
+				good = false
+				break
+			}
+			sc := script(ops, base)
+			ok, log := w.call(in.heap, "Apply", sc)
+			sum["steps"]++
+			wantAbort := st.Bool("abort")
+			g := w.scanInstance(in)
+			line++
+			if dumpDir != "" {
+				writeDump(dumpDir, w, in, g, line, bi, si)
+			}
+			if ok == wantAbort {
+				// ok/abort is not the property's observable (the property is about what is persisted): the
+				// model and the code disagree on whether this transaction panics; the persisted graph is
+				// still judged by the invariants on the dump, the prediction is not compared any further.
+				sum["drift_outcome"]++
+				if samples < 3 {
+					samples++
+					mbt.Sample(map[string]any{"drift": "outcome", "script": sc, "ok": ok, "log": trim(log, 300)})
+				}
+				good = false
+				break
+			}
+			if !ok {
+				sum["aborted"]++
+			}
+			nodes, roots, notes := project(g, in, base)
+			for _, n := range notes {
+				rep.mismatch("C06:projection:"+strings.SplitN(n, " ", 2)[0], n, caseOf(si))
+			}
+			exp, _ := st["st"].([]any)
+			stop := false
+			for _, x := range exp {
+				e := mbt.Step(x.(map[string]any))
+				id := e.Int("id")
+				if id >= 100 {
+					r, okr := roots[id]
+					if !okr || r[0] != e.Int("a") || r[1] != e.Int("b") {
+						rep.mismatch("C06:content:root", fmt.Sprintf("root holder %d persisted as %v, the program left (%d,%d) [script %q]", id, r, e.Int("a"), e.Int("b"), sc), caseOf(si))
+						stop = true
+					}
+					continue
+				}
+				n := nodes[id]
+				switch {
+				case e.Bool("here") && n == nil:
+					rep.mismatch("C06:kept:missing", fmt.Sprintf("node %d is referenced by a persisted object but is not in the store [script %q]", id, sc), caseOf(si))
+					stop = true
+				case !e.Bool("here") && n != nil:
+					rep.mismatch("C06:kept:unreferenced-object-persisted", fmt.Sprintf("node %d persisted (rc=%d) although reference counting frees it [script %q]", id, n.RC, sc), caseOf(si))
+					stop = true
+				case n == nil:
+				default:
+					sum["nodes_compared"]++
+					if n.A != e.Int("a") || n.B != e.Int("b") || n.Val != e.Int("val") {
+						rep.mismatch("C06:content:node", fmt.Sprintf("node %d persisted as A=%d B=%d W=%d, current value A=%d B=%d W=%d [script %q]", id, n.A, n.B, n.Val, e.Int("a"), e.Int("b"), e.Int("val"), sc), caseOf(si))
+						stop = true
+					}
+					if n.RC != e.Int("rc") {
+						rep.mismatch("C06:RefCountExact", fmt.Sprintf("node %d: RefCount %d, persisted referrers %d [script %q]", id, n.RC, e.Int("rc"), sc), caseOf(si))
+						stop = true
+					}
+					if n.Esc != e.Bool("esc") {
+						rep.mismatch("C06:escaped", fmt.Sprintf("node %d: IsEscaped=%v, expected %v (rc=%d) [script %q]", id, n.Esc, e.Bool("esc"), n.RC, sc), caseOf(si))
+					}
+					if n.Pkg != e.Int("pkg") {
+						rep.mismatch("C06:pkgid", fmt.Sprintf("node %d stored under realm %d, allocated in realm %d [script %q]", id, n.Pkg, e.Int("pkg"), sc), caseOf(si))
+					}
+					if n.Own != e.Int("own") {
+						key := "C06:owner:other"
+						switch {
+						case n.Own != 0 && (n.Esc || n.RC != 1):
+							key = "C06:OwnerIffSingle:recorded"
+						case n.Own == 0 && !n.Esc && n.RC == 1:
+							key = "C06:OwnerIffSingle:recorded"
+						case n.Own != 0 && !n.ownerHolds:
+							key = "C06:OwnerIffSingle:owner-not-the-referrer"
+						}
+						rep.mismatch(key, fmt.Sprintf("node %d: OwnerID -> %d, rc=%d escaped=%v, the single referrer is %d [script %q]", id, n.Own, n.RC, n.Esc, e.Int("own"), sc), caseOf(si))
+					}
+					if n.Esc {
+						sum["seen_escaped"]++
+					}
+					if n.RC >= 2 {
+						sum["seen_shared"]++
+					}
+				}
+			}
+			// guidance only: hash of a non-escaped child embedded in its parent vs the child's stored hash
+			for _, o := range g.objs {
+				for t, h := range o.hashes {
+					if c := g.by[t]; c != nil && c.stored != h {
+						sum["stale_child_hash"]++
+					}
+				}
+			}
+			if st.Bool("xr") {
+				sum["cross_realm_txs"]++
+			}
+			if stop {
+				good = false
+				break
+			}
+		}
+		if good {
+			sum["replays_ok"]++
+		}
+		if bi < 2 {
+			mbt.Sample(map[string]any{"behaviour": beh})
+		}
+	}
+	if dumpDir != "" {
+		os.WriteFile(fmt.Sprintf("%s/realm_dump_n.json", dumpDir), []byte(fmt.Sprintf("{\"n\":%d}\n", line)), 0o644)
+	}
+	out := map[string]any{"txs": w.txs, "dump_lines": line}
+	for k, v := range sum {
+		out[k] = v
+	}
+	for k, v := range rep.counts {
+		out[k] = v
+	}
+	mbt.Summary(out)
+	mbt.Flush()
+}
+
+// writeDump writes the whole persisted graph of the instance's realm packages for TLC. Object ids
+// are shortened (h<n>:<t> / g<n>:<t> for the two realm packages of instance n).
+func writeDump(dir string, w *world, in *instance, g *graph, line, bi, si int) {
+	short := func(id string) string {
+		if strings.HasPrefix(id, in.hx) {
+			return fmt.Sprintf("h%d%s", w.ninst, id[len(in.hx):])
+		}
+		if strings.HasPrefix(id, in.h2x) {
+			return fmt.Sprintf("g%d%s", w.ninst, id[len(in.h2x):])
+		}
+		return id
+	}
+	ext := []string{}
+	seen := map[string]bool{}
+	objs := map[string]any{}
+	for _, o := range g.objs {
+		refs := make([]string, 0, len(o.Refs))
+		for _, r := range o.Refs {
+			refs = append(refs, short(r))
+		}
+		for _, r := range append(append([]string{}, o.Refs...), o.Owner) {
+			if r != "" && g.by[r] == nil && !seen[r] {
+				seen[r] = true
+				if has(w.e.DB, r) {
+					ext = append(ext, short(r))
+				}
+			}
+		}
+		objs[short(o.ID)] = map[string]any{"ispkg": o.IsPkg, "rc": o.RC, "owner": short(o.Owner), "esc": o.Esc, "hashok": o.HashOK, "refs": refs}
+	}
+	bz, _ := json.Marshal(map[string]any{"l": line, "beh": bi, "step": si, "objs": objs, "ext": ext})
+	if err := os.WriteFile(fmt.Sprintf("%s/realm_dump_%d.json", dir, line), append(bz, '\n'), 0o644); err != nil {
+		mbt.Die("dump: %v", err)
+	}
+}
+
+func trim(s string, n int) string {
+	if len(s) > n {
+		return s[:n]
+	}
+	return s
+}
+
+// ---------------------------------------------------------------- exploratory mode (development aid)
+
 func probe() {
 	w := newWorld()
-	all, err := scan(w.e.DB, "")
-	if err != nil {
-		mbt.Die("scan: %v", err)
-	}
-	if os.Getenv("KEYS") != "" {
-		it, _ := w.e.DB.Iterator(nil, nil)
-		seen := map[string]int{}
-		for ; it.Valid(); it.Next() {
-			k := string(it.Key())
-			if len(k) > 14 {
-				k = k[:14]
-			}
-			seen[k]++
-		}
-		it.Close()
-		fmt.Fprintf(os.Stderr, "keys: %v\n", seen)
-	}
-	byPkg := map[string]int{}
-	for _, o := range all {
-		byPkg[o.Pkg]++
-	}
-	fmt.Fprintf(os.Stderr, "genesis: %d objects in %d packages\n", len(all), len(byPkg))
-	hid := gno.PkgIDFromPkgPath(heapPath)
-	h2id := gno.PkgIDFromPkgPath(heap2Path)
-	hx, h2x := fmt.Sprintf("%x", hid.Bytes()), fmt.Sprintf("%x", h2id.Bytes())
-	dump := func(label string) {
-		fmt.Fprintf(os.Stderr, "---- %s\n", label)
-		for _, px := range []string{hx, h2x} {
-			objs, err := scan(w.e.DB, px)
-			if err != nil {
-				mbt.Die("scan: %v", err)
-			}
-			for _, o := range objs {
-				short := func(s string) string {
-					s = strings.ReplaceAll(s, hx, "H")
-					return strings.ReplaceAll(s, h2x, "G")
-				}
-				rs := []string{}
-				for _, r := range o.Refs {
-					rs = append(rs, short(r))
-				}
-				fmt.Fprintf(os.Stderr, "%-8s %-22s rc=%d esc=%v own=%-6s hash=%v refs=%v pk=%v\n", short(o.ID), o.Kind, o.RC, o.Esc, short(o.Owner), o.HashOK, rs, o.PkgRef)
-			}
-		}
-	}
-	dump("after genesis")
-	if os.Getenv("RAW") != "" {
-		objs, _ := scan(w.e.DB, hx)
-		for _, o := range objs {
-			bz, _ := json.Marshal(o.raw)
-			fmt.Fprintf(os.Stderr, "%s %s\n", o.ID, bz)
-		}
+	in := w.newInstance()
+	short := func(s string) string {
+		s = strings.ReplaceAll(s, in.hx, "H")
+		return strings.ReplaceAll(s, in.h2x, "G")
 	}
 	for _, sc := range strings.Split(os.Getenv("SCRIPTS"), "|") {
 		if sc == "" {
 			continue
 		}
-		ok, log := w.call(heapPath, "Apply", sc)
-		dump(fmt.Sprintf("%q ok=%v", sc, ok))
+		ok, log := w.call(in.heap, "Apply", sc)
+		fmt.Fprintf(os.Stderr, "---- %q ok=%v\n", sc, ok)
 		if !ok {
 			fmt.Fprintf(os.Stderr, "LOG %.600s\n", log)
 		}
+		g := w.scanInstance(in)
+		for _, o := range g.objs {
+			if o.Kind == "/gno.FuncValue" || o.Kind == "/gno.Block" || o.Kind == "/gno.PackageValue" {
+				continue
+			}
+			rs := []string{}
+			for _, r := range o.Refs {
+				rs = append(rs, short(r))
+			}
+			fmt.Fprintf(os.Stderr, "%-8s %-22s rc=%d esc=%v own=%-6s hash=%v refs=%v\n", short(o.ID), o.Kind, o.RC, o.Esc, short(o.Owner), o.HashOK, rs)
+		}
 	}
-}
-
-func main() {
-	f := mbt.ParseFlags()
-	switch f.Mode {
-	case "probe":
-		probe()
-	}
-	mbt.Flush()
 }
